@@ -4,9 +4,9 @@ BOUNDS = {
              'copy+move elements at capacity 3 (second vector / source block size NB in {0,1,3}), move-only elements at capacity 2 (NB in {0,1}); pre-size NA in 0..CAP (enumerated); copy-only elements at capacity 2 from pre-size 1; '
              'element values, object bytes before construction symbolic, positions / counts / new sizes symbolic (case-split); histories of 2 symbolic operations at capacity 2: '
              'static_vector from pre-size 1, one query per first operation (12 op codes), inplace_vector from every pre-size (6 op codes), copy+move elements',
-    'thorough': 'copy+move elements at capacities 0..3 with every (NA, NB) and at capacity 4 with NB in {0,4}; move-only at capacity 3 (every NB) and 4 (NB in {0,4}); copy-only at capacity 3 (NB in {0,1,3}) and 4 (NB in {0,4}); '
+    'thorough': 'copy+move elements at capacities 0..3 with every (NA, NB) and at capacity 4 with NB in {0,4}; move-only and copy-only elements at capacity 3 (NB in {0,1,3}); '
                 'static_vector histories of 2 operations at capacity 2 (copy+move from every pre-size, the other flavours from pre-size 1) and of 3 operations at capacity 1 (copy+move), one query per first operation; '
-                'inplace_vector histories of 3 operations at capacity 2 (all flavours) and of 2 at capacity 3',
+                'inplace_vector histories of 3 operations at capacity 2 from pre-size 1 (all flavours) and of 2 at capacity 3 from every pre-size',
 }
 ASSUMPTIONS = [
     'C03: every operation is called inside its documented precondition (position in [begin,end], size()+count <= capacity, non-empty for pop, index < size()); contract checks compiled out',
@@ -38,8 +38,7 @@ RANGE_ANY = ['sv_assign_range']
 PAIR = ['sv_swap_member', 'sv_swap_free', 'sv_copy_assign', 'sv_move_assign', 'sv_rel', 'st_swap_member', 'st_swap_free']
 ALL = ANY + NONEMPTY + NOTFULL + MIDDLE + RANGE_FIT + RANGE_ANY + PAIR
 # known-finding regions that cover whole configurations: the main query is skipped while the finding is open (kf_only)
-KF_WHOLE = {'sv_copy_assign_self': ('C03_static_vector_self_copy_assign', lambda na: na > 0),
-            'iv_move_ctor': ('C03_inplace_vector_move_ctor_leak', lambda na: na > 0)}
+KF_WHOLE = {'iv_move_ctor': ('C03_inplace_vector_move_ctor_leak', lambda na: na > 0)}
 SOLVER = {'sv_free_erase_if': 'cadical', 'sv_free_erase': 'cadical'}
 
 
@@ -70,11 +69,10 @@ def queries(tier, prop='C03'):
         only_na = {2: (1,)}   # quick: copy-only elements from the middle pre-size only (every pre-size in the thorough tier)
         hist = [('q_sv_hist', 0, 2, 2, 1, f) for f in range(nops[0])] + [('q_iv_hist', 0, 2, 2, na, None) for na in (0, 1, 2)]
     else:
-        grid = [(0, c, tuple(range(c + 1))) for c in (0, 1, 2, 3)] + [(0, 4, (0, 4))]
-        grid += [(1, 3, (0, 1, 2, 3)), (1, 4, (0, 4)), (2, 3, (0, 1, 3)), (2, 4, (0, 4))]
+        grid = [(0, 0, (0,)), (0, 1, (0, 1)), (0, 2, (0, 1, 2)), (0, 3, (0, 1, 2, 3)), (0, 4, (0, 4)), (1, 3, (0, 1, 3)), (2, 3, (0, 1, 3))]
         hist = [('q_sv_hist', 0, 2, 2, na, f) for na in (0, 1, 2) for f in range(nops[0])] + [('q_sv_hist', fl, 2, 2, 1, f) for fl in (1, 2) for f in range(nops[fl])]
         hist += [('q_sv_hist', 0, 1, 3, 1, f) for f in range(nops[0])]
-        hist += [('q_iv_hist', fl, 2, 3, na, None) for fl in (0, 1, 2) for na in (0, 1, 2)] + [('q_iv_hist', 0, 3, 2, na, None) for na in (0, 1, 2, 3)]
+        hist += [('q_iv_hist', fl, 2, 3, 1, None) for fl in (0, 1, 2)] + [('q_iv_hist', 0, 3, 2, na, None) for na in (0, 1, 2, 3)]
     if ub:   # C02: the UB build of a subset (copy+move elements, one capacity)
         grid = [(0, 2, (0, 1))] if tier == 'quick' else [(0, 3, (0, 1, 3)), (1, 2, (0, 1)), (2, 2, (0, 1))]
         only_na = {0: (1,)} if tier == 'quick' else {}   # C02 quick: every operation once, from the middle pre-size
